@@ -722,6 +722,12 @@ class MailExecutor(UnitsExecutor):
                 st.assume(z3.And(z3.Implies(z3.Or(z3.Not(z3.Contains(t, old)), old == new), r == t),
                                  z3.Implies(z3.And(z3.Contains(t, old), old != new), r != t)))
                 return [(st, VDyn(r, obj.isb) if isinstance(obj, VDyn) else VStr(r))]
+        if type(obj) is VStr and name == "split" and not args and not kwargs and obj.const() is None:
+            # (round 6) s.split() of a symbolic str: ASSUMED total; the list of white-space separated words, a function of s
+            n = fun("str_wssplit_n", S, I)(obj.t)
+            at = fun("str_wssplit_at", S, I, S)
+            st.assume(n >= 0)
+            return [(st, VSeq(n, lambda k, t=obj.t: VStr(at(t, k)), "str"))]
         if isinstance(obj, VStr):
             if name == "decode":
                 return self.m_decode(st, obj, args, kwargs, node)
